@@ -28,11 +28,28 @@ struct Shape {
     shared: bool,
     orphan: bool,
     strm: bool,
+    /// references to every object (and every dangling reference) placed below `depth` levels of
+    /// containers inside one direct object
+    deep: Option<Deep>,
+}
+
+#[derive(Clone, Debug, PartialEq)]
+struct Deep {
+    /// the direct object holding the nest: "trailer" | "catalog" | "page" (first page) | "stream" | "info"
+    place: String,
+    /// "a" arrays only | "d" dictionaries only | "m" alternating
+    kind: String,
+    /// number of containers between the holder's /Deep entry and the references (>= 1)
+    depth: usize,
 }
 
 impl Shape {
     fn plain(k: usize) -> Shape {
-        Shape { tree: k > 0, k, inter: None, info: false, shared: false, orphan: false, strm: false }
+        Shape { tree: k > 0, k, inter: None, info: false, shared: false, orphan: false, strm: false, deep: None }
+    }
+    fn deep(mut self, place: &str, kind: &str, depth: usize) -> Shape {
+        self.deep = Some(Deep { place: place.into(), kind: kind.into(), depth });
+        self
     }
     fn with(mut self, extras: &str) -> Shape {
         for c in extras.chars() {
@@ -58,7 +75,8 @@ impl Shape {
     }
     fn to_json(&self) -> Value {
         json!({"tree": self.tree, "pages": self.k, "inter": self.inter.map(|(a, b)| vec![a, b]), "info": self.info,
-               "shared": self.shared, "orphan": self.orphan, "stream": self.strm})
+               "shared": self.shared, "orphan": self.orphan, "stream": self.strm,
+               "deep": self.deep.as_ref().map(|d| json!({"place": d.place, "kind": d.kind, "depth": d.depth}))})
     }
     fn from_json(v: &Value) -> Shape {
         Shape {
@@ -69,6 +87,11 @@ impl Shape {
             shared: v["shared"].as_bool().unwrap(),
             orphan: v["orphan"].as_bool().unwrap(),
             strm: v["stream"].as_bool().unwrap(),
+            deep: v.get("deep").filter(|d| d.is_object()).map(|d| Deep {
+                place: d["place"].as_str().unwrap().to_string(),
+                kind: d["kind"].as_str().unwrap().to_string(),
+                depth: d["depth"].as_u64().unwrap() as usize,
+            }),
         }
     }
 }
@@ -85,6 +108,45 @@ fn dict(e: Vec<(&str, Object)>) -> Dictionary {
         d.set(k.as_bytes().to_vec(), v);
     }
     d
+}
+
+/// `refs` below `depth` nested containers, built from the inside out (no recursion). Level 1 is
+/// the outermost container, level `depth` holds the references. Every level also carries an
+/// integer, and every 50th level a reference to `side`.
+fn nest(kind: &str, depth: usize, refs: &[ObjectId], side: ObjectId) -> Object {
+    assert!(depth >= 1);
+    let is_arr = |level: usize| match kind {
+        "a" => true,
+        "d" => false,
+        _ => level % 2 == 1,
+    };
+    let mut o = if is_arr(depth) {
+        Object::Array(refs.iter().map(|r| rf(*r)).collect())
+    } else {
+        let mut d = Dictionary::new();
+        for (i, r) in refs.iter().enumerate() {
+            d.set(format!("R{}", i).into_bytes(), rf(*r));
+        }
+        Object::Dictionary(d)
+    };
+    for level in (1..depth).rev() {
+        let side_ref = if level % 50 == 0 { Some(rf(side)) } else { None };
+        o = if is_arr(level) {
+            let mut v = vec![Object::Integer(level as i64)];
+            v.extend(side_ref);
+            v.push(o);
+            Object::Array(v)
+        } else {
+            let mut d = Dictionary::new();
+            d.set("V", Object::Integer(level as i64));
+            if let Some(s) = side_ref {
+                d.set("S", s);
+            }
+            d.set("N", o);
+            Object::Dictionary(d)
+        };
+    }
+    o
 }
 
 /// Build the document of `sh` with role i stored under `ids[i]`; `dang` are references to objects
@@ -214,6 +276,27 @@ fn build(sh: &Shape, ids: &[ObjectId], dang: &[ObjectId]) -> (Document, Vec<Obje
     }
     doc.trailer.set("Root", rf(cat.0));
     doc.trailer.set("ID", Object::Array(vec![Object::string_literal("a"), Object::string_literal("b")]));
+    if let Some(dp) = &sh.deep {
+        let mut refs: Vec<ObjectId> = ids.to_vec();
+        refs.extend(dang.iter().cloned());
+        let val = nest(&dp.kind, dp.depth, &refs, cat.0);
+        let holder = match dp.place.as_str() {
+            "trailer" => None,
+            "catalog" => Some(cat.0),
+            "page" => Some(pages.first().expect("deep place 'page' needs a page").0),
+            "stream" => Some(strm.expect("deep place 'stream' needs the stream").0),
+            "info" => Some(info.expect("deep place 'info' needs Info").0),
+            other => panic!("unknown deep place {}", other),
+        };
+        match holder {
+            None => doc.trailer.set("Deep", val),
+            Some(h) => match doc.objects.get_mut(&h) {
+                Some(Object::Dictionary(d)) => d.set("Deep", val),
+                Some(Object::Stream(s)) => s.dict.set("Deep", val),
+                _ => panic!("deep holder is not a dictionary or stream"),
+            },
+        }
+    }
     doc.max_id = ids.iter().map(|i| i.0).max().unwrap_or(0);
     (doc, pages.iter().map(|p| p.0).collect())
 }
@@ -377,6 +460,12 @@ enum Seg<'a> {
 
 fn render(root: &str, path: &[Seg]) -> String {
     let mut s = root.to_string();
+    if path.len() > 12 {
+        // a long path: the first and the last segments and the number of levels between them
+        let head = render("", &path[..4]);
+        let tail = render("", &path[path.len() - 4..]);
+        return format!("{}{}..({} levels, {} segments in all)..{}", s, head, path.len() - 8, path.len(), tail);
+    }
     for p in path {
         match p {
             Seg::K(k) => {
@@ -506,17 +595,32 @@ fn ids_str(v: &[ObjectId]) -> String {
     v.iter().map(|i| format!("{} {}", i.0, i.1)).collect::<Vec<_>>().join(", ")
 }
 
-/// Execute the real code on one case and compare against the statement of the property.
-fn run_case(p: &Prep, bms: &[Bm], start: Option<u32>) -> Outcome {
-    let mut out = Outcome::default();
-    let mut d = p.doc.clone();
+fn add_bookmarks(d: &mut Document, bms: &[Bm]) -> Result<(), String> {
     for (i, (page, parent)) in bms.iter().enumerate() {
         let got = d.add_bookmark(Bookmark::new(format!("b{}", i + 1), [0.0, 0.0, 0.0], 0, *page), parent.map(|x| x as u32 + 1));
         if got != i as u32 + 1 {
-            out.fatal = Some(format!("add_bookmark returned id {} for bookmark #{}", got, i + 1));
-            return out;
+            return Err(format!("add_bookmark returned id {} for bookmark #{}", got, i + 1));
         }
     }
+    Ok(())
+}
+
+/// Execute the real code on one case and compare against the statement of the property.
+fn run_case(p: &Prep, bms: &[Bm], start: Option<u32>) -> Outcome {
+    let mut d = p.doc.clone();
+    if let Err(e) = add_bookmarks(&mut d, bms) {
+        return Outcome { fatal: Some(e), ..Outcome::default() };
+    }
+    run_final(p, d, start)
+}
+
+/// Renumber `d` (whose objects and trailer are those of `p.doc`, plus bookmarks) and compare
+/// against the statement of the property.
+fn run_final(p: &Prep, mut d: Document, start: Option<u32>) -> Outcome {
+    let mut out = Outcome::default();
+    // the bookmark targets as they are right before the call
+    let mut bm_before: Vec<(u32, ObjectId)> = d.bookmark_table.iter().map(|(id, b)| (*id, b.page)).collect();
+    bm_before.sort();
     let r = util::guard(|| match start {
         None => d.renumber_objects(),
         Some(s) => d.renumber_objects_with(s),
@@ -581,15 +685,15 @@ fn run_case(p: &Prep, bms: &[Bm], start: Option<u32>) -> Outcome {
         }
     }
     // bookmarks
-    if d.bookmark_table.len() != bms.len() {
-        out.mis.push(Mis::Content(format!("{} bookmarks became {}", bms.len(), d.bookmark_table.len())));
+    if d.bookmark_table.len() != bm_before.len() {
+        out.mis.push(Mis::Content(format!("{} bookmarks became {}", bm_before.len(), d.bookmark_table.len())));
     }
-    for (i, (page, _)) in bms.iter().enumerate() {
+    for (id, page) in &bm_before {
         let expected = rho.get(page).cloned().unwrap_or(*page);
-        match d.bookmark_table.get(&(i as u32 + 1)) {
+        match d.bookmark_table.get(id) {
             Some(b) if b.page == expected => {}
-            Some(b) => out.mis.push(Mis::Bookmark { idx: i, old_page: *page, expected, got: b.page }),
-            None => out.mis.push(Mis::Content(format!("bookmark #{} disappeared", i + 1))),
+            Some(b) => out.mis.push(Mis::Bookmark { idx: *id as usize - 1, old_page: *page, expected, got: b.page }),
+            None => out.mis.push(Mis::Content(format!("bookmark #{} disappeared", id))),
         }
     }
     // page order
@@ -862,9 +966,11 @@ fn bookmark_configs(t: usize, max_top: usize, deep: bool) -> Vec<Vec<(usize, Opt
     out
 }
 
-fn start_values(n: usize, max: u32) -> Vec<Option<u32>> {
+/// The plain entry point, then 1, 2, 3, n, max+1, 1000 and the current first number (nothing moves
+/// when the numbers are already dense).
+fn start_values(n: usize, min: u32, max: u32) -> Vec<Option<u32>> {
     let mut v: Vec<Option<u32>> = vec![None];
-    for s in [1, 2, 3, n as u32, max + 1, 1000] {
+    for s in [1, 2, 3, n as u32, max + 1, 1000, min] {
         if s >= 1 && !v.contains(&Some(s)) {
             v.push(Some(s));
         }
@@ -933,9 +1039,12 @@ const EXPECTED: &str = "numbers start..start+n-1, generations kept, max_id = las
 fn explore_doc(sh: &Shape, ids: &[ObjectId], family: &str, bm_cfgs: &[Vec<(usize, Option<usize>)>], dang_modes: &[bool], shv: &Shared, t: &mut Tally) {
     let n = ids.len();
     let max = ids.iter().map(|i| i.0).max().unwrap();
+    let min = ids.iter().map(|i| i.0).min().unwrap();
+    // a deeply nested document is never written out (its JSON form could not be read back): the replay rebuilds it from `gen`
+    let embed = sh.deep.is_none();
     let base = sh.page_base();
     let targets: Vec<ObjectId> = if sh.tree { ids[base..base + sh.k].to_vec() } else { vec![ids[0]] };
-    for start in start_values(n, max) {
+    for start in start_values(n, min, max) {
         let s = start.unwrap_or(1);
         for &with_dang in dang_modes {
             let dang = if with_dang { dangling(ids, s) } else { vec![] };
@@ -979,7 +1088,7 @@ fn explore_doc(sh: &Shape, ids: &[ObjectId], family: &str, bm_cfgs: &[Vec<(usize
                 }
                 if shv.samples_left.load(Ordering::Relaxed) > 0 && !out.identity && bms.len() >= 2 && with_dang {
                     if shv.samples_left.fetch_update(Ordering::SeqCst, Ordering::SeqCst, |x| x.checked_sub(1)).is_ok() {
-                        shv.run.sample(case_json(&gen, Some(&prep.doc), &bms, start));
+                        shv.run.sample(case_json(&gen, if embed { Some(&prep.doc) } else { None }, &bms, start));
                     }
                 }
                 if out.failed() {
@@ -994,7 +1103,8 @@ fn explore_doc(sh: &Shape, ids: &[ObjectId], family: &str, bm_cfgs: &[Vec<(usize
                         Some([DANGLE]) => 2,
                         Some(_) => 3,
                     };
-                    let full = shv.full_json_left[slot].load(Ordering::Relaxed) > 0
+                    let full = embed
+                        && shv.full_json_left[slot].load(Ordering::Relaxed) > 0
                         && shv.full_json_left[slot].fetch_update(Ordering::SeqCst, Ordering::SeqCst, |x| x.checked_sub(1)).is_ok();
                     let (cj, text) = if all_open && !full {
                         (Value::Null, String::new())
@@ -1162,6 +1272,392 @@ fn family_b(run: &Run, shv: &Shared) {
     run.add("structures_family_b", structures);
 }
 
+/// role -> position in the sorted number list: the pages take the positions `lay` in the order
+/// `p`, the other roles the remaining positions ascending (descending when `rev`).
+fn role_positions(sh: &Shape, lay: &[usize], rev: bool, p: &[usize]) -> Vec<usize> {
+    let n = sh.n();
+    let base = sh.page_base();
+    let mut others: Vec<usize> = (0..n).filter(|x| !lay.contains(x)).collect();
+    if rev {
+        others.reverse();
+    }
+    let mut pos = vec![0usize; n];
+    let mut oi = 0;
+    for (role, slot) in pos.iter_mut().enumerate() {
+        if role >= base && role < base + sh.k {
+            *slot = lay[p[role - base]];
+        } else {
+            *slot = others[oi];
+            oi += 1;
+        }
+    }
+    pos
+}
+
+const SPARSE: [u32; 12] = [2, 5, 6, 9, 70, 71, 1000, 1001, 4096, 65536, 65537, 4_000_000];
+
+fn number_sets(n: usize) -> Vec<Vec<u32>> {
+    vec![(1..=n as u32).collect(), (3..n as u32 + 3).collect(), SPARSE[..n].to_vec()]
+}
+
+/// Family D: references below `depth` levels of arrays / dictionaries / alternating containers
+/// inside the trailer, the catalog, a page, a stream dictionary or Info.
+fn family_d(run: &Run, shv: &Shared) {
+    let thorough = run.thorough;
+    let mut depths: Vec<usize> = vec![1, 2, 63, 64, 126, 127, 128, 129, 130, 200, 1000];
+    if thorough {
+        depths.extend([3, 4, 8, 16, 32, 62, 65, 100, 125, 131, 132, 255, 256, 257, 500, 2000]);
+        depths.sort();
+    }
+    let mut bases = vec![Shape::plain(2).with("st"), Shape::plain(0).with("st")];
+    if thorough {
+        bases.push(Shape::plain(3).inter(1, 3).with("ist"));
+    }
+    // work item: (shape with deep, number set, page positions, page permutation)
+    let mut work: Vec<(Shape, Vec<u32>, Vec<usize>, Vec<usize>)> = vec![];
+    let mut combos = 0u64;
+    for base in &bases {
+        let n = base.n();
+        let k = base.k;
+        let mut places = vec!["trailer", "catalog", "stream"];
+        if base.tree {
+            places.push("page");
+        }
+        if base.info {
+            places.push("info");
+        }
+        let layouts: Vec<Vec<usize>> = if k == 0 { vec![vec![]] } else { vec![(0..k).collect(), (n - k..n).collect()] };
+        for &depth in depths.iter().rev() {
+            for kind in ["a", "d", "m"] {
+                for place in &places {
+                    combos += 1;
+                    let sh = base.clone().deep(place, kind, depth);
+                    for set in number_sets(n) {
+                        for lay in &layouts {
+                            for p in perms(k) {
+                                work.push((sh.clone(), set.clone(), lay.clone(), p));
+                            }
+                        }
+                    }
+                }
+            }
+        }
+    }
+    util::par_for(work.len(), |w| {
+        let (sh, set, lay, p) = &work[w];
+        let n = sh.n();
+        let t_count = if sh.tree { sh.k } else { 1 };
+        let cfgs = bookmark_configs(t_count, 1, false);
+        let full = (1u32 << n) - 1;
+        let mut t = Tally::default();
+        // without pages the other roles take every rotation of the numbers instead
+        let rotations = if sh.k == 0 { n } else { 1 };
+        for rot in 0..rotations {
+            let mut pos = role_positions(sh, lay, false, p);
+            pos.iter_mut().for_each(|x| *x = (*x + rot) % n);
+            for g in [0u32, 0x5555_5555 & full] {
+                let ids: Vec<ObjectId> = (0..n).map(|i| (set[pos[i]], ((g >> i) & 1) as u16)).collect();
+                explore_doc(sh, &ids, "D", &cfgs, &[false, true], shv, &mut t);
+            }
+        }
+        flush(run, &t, "D");
+    });
+    run.add("deep_nesting_combinations_depth_x_kind_x_place", combos);
+    run.set("deep_nesting_depths", json!(depths));
+}
+
+// ---------------------------------------------------------------------------------------------
+// family H: the document has a history before the renumbering under test
+
+#[derive(Clone, Debug, PartialEq)]
+enum Pre {
+    /// an earlier renumbering
+    Renumber(Option<u32>),
+    /// delete_object(id of the object carrying this tag)
+    DeleteTag(i64),
+    DeletePages(Vec<u32>),
+    /// add_object(tagged dictionary with references), linked from the trailer's /Extra array
+    Add,
+    /// doc.objects.insert at last+50 without touching max_id, linked from /Extra
+    InsertHigh,
+    /// doc.objects.remove(last id): references to it dangle, max_id is stale
+    RemoveLast,
+    SetMaxId(u32),
+    SaveTable,
+    SaveStream,
+    Prune,
+    GetPages,
+}
+
+impl Pre {
+    fn to_json(&self) -> Value {
+        match self {
+            Pre::Renumber(s) => json!({"op": "renumber", "start": s}),
+            Pre::DeleteTag(t) => json!({"op": "delete_object_with_tag", "tag": t}),
+            Pre::DeletePages(v) => json!({"op": "delete_pages", "pages": v}),
+            Pre::Add => json!({"op": "add_object"}),
+            Pre::InsertHigh => json!({"op": "objects_insert_high"}),
+            Pre::RemoveLast => json!({"op": "objects_remove_last"}),
+            Pre::SetMaxId(v) => json!({"op": "set_max_id", "value": v}),
+            Pre::SaveTable => json!({"op": "save_to_table"}),
+            Pre::SaveStream => json!({"op": "save_to_stream"}),
+            Pre::Prune => json!({"op": "prune_objects"}),
+            Pre::GetPages => json!({"op": "get_pages"}),
+        }
+    }
+    fn from_json(v: &Value) -> Pre {
+        match v["op"].as_str().unwrap_or("") {
+            "renumber" => Pre::Renumber(v["start"].as_u64().map(|x| x as u32)),
+            "delete_object_with_tag" => Pre::DeleteTag(v["tag"].as_i64().unwrap()),
+            "delete_pages" => Pre::DeletePages(v["pages"].as_array().unwrap().iter().map(|x| x.as_u64().unwrap() as u32).collect()),
+            "add_object" => Pre::Add,
+            "objects_insert_high" => Pre::InsertHigh,
+            "objects_remove_last" => Pre::RemoveLast,
+            "set_max_id" => Pre::SetMaxId(v["value"].as_u64().unwrap() as u32),
+            "save_to_table" => Pre::SaveTable,
+            "save_to_stream" => Pre::SaveStream,
+            "prune_objects" => Pre::Prune,
+            "get_pages" => Pre::GetPages,
+            other => {
+                eprintln!("MACHINERY: unknown pre-op {}", other);
+                std::process::exit(3);
+            }
+        }
+    }
+}
+
+fn link_extra(d: &mut Document, id: ObjectId) {
+    if let Ok(Object::Array(a)) = d.trailer.get_mut(b"Extra") {
+        a.push(rf(id));
+        return;
+    }
+    d.trailer.set("Extra", Object::Array(vec![rf(id)]));
+}
+
+fn tagged_extra(d: &Document, tag: i64) -> Object {
+    let mut dd = dict(vec![("Tag", Object::Integer(tag))]);
+    if let Ok(Object::Reference(c)) = d.trailer.get(b"Root") {
+        dd.set("Back", rf(*c));
+    }
+    if let Some(p) = ref_pages(d).first() {
+        dd.set("Peer", Object::Array(vec![rf(*p)]));
+    }
+    Object::Dictionary(dd)
+}
+
+/// The document right before the renumbering under test: bookmarks added, then the history.
+fn state_after(base: &Document, bms: &[Bm], pre: &[Pre]) -> Result<Document, String> {
+    let mut d = base.clone();
+    add_bookmarks(&mut d, bms)?;
+    let mut fresh_tag = 900i64;
+    for op in pre {
+        let r = util::guard(|| -> Result<(), String> {
+            match op {
+                Pre::Renumber(None) => d.renumber_objects(),
+                Pre::Renumber(Some(s)) => d.renumber_objects_with(*s),
+                Pre::DeleteTag(t) => {
+                    let id = d.objects.iter().find(|(_, o)| tag_of(o) == Some(*t)).map(|(id, _)| *id);
+                    if let Some(id) = id {
+                        d.delete_object(id);
+                    }
+                }
+                Pre::DeletePages(v) => d.delete_pages(v),
+                Pre::Add => {
+                    let o = tagged_extra(&d, fresh_tag);
+                    fresh_tag += 1;
+                    let id = d.add_object(o);
+                    link_extra(&mut d, id);
+                }
+                Pre::InsertHigh => {
+                    let o = tagged_extra(&d, fresh_tag);
+                    fresh_tag += 1;
+                    let id = (d.objects.keys().next_back().map(|k| k.0).unwrap_or(0) + 50, 0);
+                    d.objects.insert(id, o);
+                    link_extra(&mut d, id);
+                }
+                Pre::RemoveLast => {
+                    if let Some(id) = d.objects.keys().next_back().cloned() {
+                        d.objects.remove(&id);
+                    }
+                }
+                Pre::SetMaxId(v) => d.max_id = *v,
+                Pre::SaveTable | Pre::SaveStream => {
+                    util::set_xref(&mut d, *op == Pre::SaveTable);
+                    let mut sink = Vec::new();
+                    d.save_to(&mut sink).map_err(|e| format!("save_to: {}", e))?;
+                }
+                Pre::Prune => {
+                    d.prune_objects();
+                }
+                Pre::GetPages => {
+                    let _ = d.get_pages();
+                }
+            }
+            Ok(())
+        });
+        match r {
+            Ok(Ok(())) => {}
+            Ok(Err(e)) => return Err(format!("history step {}: {}", op.to_json(), e)),
+            Err(e) => return Err(format!("history step {}: {}", op.to_json(), e)),
+        }
+    }
+    Ok(d)
+}
+
+/// Snapshot of the state (objects and trailer only) as the reference for the final renumbering.
+fn snapshot(state: &Document) -> Result<Prep, String> {
+    let mut s = Document::with_version("1.5");
+    s.objects = state.objects.clone();
+    s.trailer = state.trailer.clone();
+    s.max_id = state.max_id;
+    prepare(s)
+}
+
+fn history_case(gen: &Value, bms: &[Bm], pre: &[Pre], start: Option<u32>) -> Value {
+    let mut v = case_json(gen, None, bms, start);
+    v["pre"] = Value::Array(pre.iter().map(|p| p.to_json()).collect());
+    v
+}
+
+const EXPECTED_H: &str = "whatever happened to the document before (earlier renumbering, deletions, additions, saving, a stale max_id), the renumbering under test gives numbers start..start+n-1, generations kept, max_id = last; trailer, every reachable object, every bookmark page and the page order equal the state right before the call under the renaming recovered from the tags";
+
+fn pre_sequences(sh: &Shape, n: usize, min: u32, max: u32) -> Vec<Vec<Pre>> {
+    // tags follow the role order of `build`: 100 + role index
+    let mut role = 1 + sh.tree as usize + sh.inter.is_some() as usize;
+    let last_page = if sh.k > 0 { Some(100 + (role + sh.k - 1) as i64) } else { None };
+    role += sh.k;
+    let mut tag_of_role = |present: bool| {
+        if present {
+            role += 1;
+            Some(100 + (role - 1) as i64)
+        } else {
+            None
+        }
+    };
+    let info = tag_of_role(sh.info);
+    let shared = tag_of_role(sh.shared);
+    let orphan = tag_of_role(sh.orphan);
+    let strm = tag_of_role(sh.strm);
+    let mut v: Vec<Vec<Pre>> = vec![];
+    for s in start_values(n, min, max) {
+        v.push(vec![Pre::Renumber(s)]);
+    }
+    for t in [info, shared, orphan, strm, last_page].into_iter().flatten() {
+        v.push(vec![Pre::DeleteTag(t)]);
+    }
+    if sh.k > 0 {
+        v.push(vec![Pre::DeletePages(vec![1])]);
+        v.push(vec![Pre::DeletePages(vec![sh.k as u32])]);
+    }
+    for one in [Pre::Add, Pre::InsertHigh, Pre::RemoveLast, Pre::SetMaxId(0), Pre::SetMaxId(max + 100), Pre::SetMaxId(u32::MAX), Pre::SaveTable, Pre::SaveStream, Pre::Prune, Pre::GetPages] {
+        v.push(vec![one]);
+    }
+    v.push(vec![Pre::Add, Pre::Add]);
+    v.push(vec![Pre::SaveStream, Pre::Add]);
+    v.push(vec![Pre::RemoveLast, Pre::Add]);
+    v.push(vec![Pre::Add, Pre::Renumber(Some(2))]);
+    v.push(vec![Pre::Renumber(Some(1000)), Pre::Add]);
+    v.push(vec![Pre::Renumber(Some(2)), Pre::Renumber(Some(5))]);
+    v.push(vec![Pre::Renumber(Some(3)), Pre::GetPages, Pre::InsertHigh]);
+    if let Some(t) = shared {
+        v.push(vec![Pre::DeleteTag(t), Pre::Add]);
+        v.push(vec![Pre::Renumber(Some(3)), Pre::DeleteTag(t)]);
+    }
+    if let Some(t) = orphan {
+        v.push(vec![Pre::DeleteTag(t), Pre::Renumber(None)]);
+    }
+    v
+}
+
+fn family_h(run: &Run, shv: &Shared) {
+    let thorough = run.thorough;
+    let mut bases = vec![Shape::plain(2).with("isot"), Shape::plain(3).inter(1, 3).with("so"), Shape::plain(0).with("io")];
+    if thorough {
+        bases.push(Shape::plain(4).inter(0, 2).with("isot"));
+        bases.push(Shape::plain(1).with("st"));
+    }
+    // work item: (shape, number set, page positions, page permutation, generation mask, dangling refs?)
+    let mut work: Vec<(Shape, Vec<u32>, Vec<usize>, Vec<usize>, u32, bool)> = vec![];
+    for sh in &bases {
+        let n = sh.n();
+        let k = sh.k;
+        let full = (1u32 << n) - 1;
+        let layouts: Vec<Vec<usize>> = if k == 0 { vec![vec![]] } else { vec![(0..k).collect(), (n - k..n).collect()] };
+        for set in number_sets(n) {
+            for lay in &layouts {
+                for p in perms(k) {
+                    for g in [0u32, 0x5555_5555 & full] {
+                        for dang in [false, true] {
+                            work.push((sh.clone(), set.clone(), lay.clone(), p.clone(), g, dang));
+                        }
+                    }
+                }
+            }
+        }
+    }
+    let sampled = AtomicU64::new(0);
+    util::par_for(work.len(), |w| {
+        let (sh, set, lay, p, g, with_dang) = &work[w];
+        let n = sh.n();
+        let pos = role_positions(sh, lay, false, p);
+        let ids: Vec<ObjectId> = (0..n).map(|i| (set[pos[i]], ((g >> i) & 1) as u16)).collect();
+        let (min, max) = (ids.iter().map(|i| i.0).min().unwrap(), ids.iter().map(|i| i.0).max().unwrap());
+        let dang = if *with_dang { dangling(&ids, 2) } else { vec![] };
+        let (doc, _) = build(sh, &ids, &dang);
+        let gen = json!({"family": "H", "shape": sh.to_json(), "ids": ids.iter().map(|i| vec![i.0 as u64, i.1 as u64]).collect::<Vec<_>>(),
+                         "dangling": dang.iter().map(|i| vec![i.0 as u64, i.1 as u64]).collect::<Vec<_>>()});
+        let base = sh.page_base();
+        let targets: Vec<ObjectId> = if sh.tree { ids[base..base + sh.k].to_vec() } else { vec![ids[0]] };
+        let cfgs = bookmark_configs(targets.len(), if thorough { 2 } else { 1 }, false);
+        let (mut cases, mut nontrivial, mut still, mut states) = (0u64, 0u64, 0u64, 0u64);
+        for pre in pre_sequences(sh, n, min, max) {
+            for cfg in &cfgs {
+                let bms: Vec<Bm> = cfg.iter().map(|(x, par)| (targets[*x], *par)).collect();
+                let state = match state_after(&doc, &bms, &pre) {
+                    Ok(s) => s,
+                    Err(e) => {
+                        shv.run.fail(None, history_case(&gen, &bms, &pre, None), &e, "every step of the history succeeds");
+                        continue;
+                    }
+                };
+                let snap = match snapshot(&state) {
+                    Ok(s) => s,
+                    Err(e) => {
+                        shv.run.fail(None, history_case(&gen, &bms, &pre, None), &format!("state after the history: {}", e), "lopdf's own operations keep object numbers unique and leave the tagged objects alone");
+                        continue;
+                    }
+                };
+                states += 1;
+                let sn = snap.doc.objects.len();
+                let (smin, smax) = match (snap.doc.objects.keys().next(), snap.doc.objects.keys().next_back()) {
+                    (Some(a), Some(b)) => (a.0, b.0),
+                    _ => (1, 1),
+                };
+                for start in start_values(sn, smin, smax) {
+                    let out = run_final(&snap, state.clone(), start);
+                    cases += 1;
+                    if out.identity {
+                        still += 1;
+                    } else if start.is_some() {
+                        nontrivial += 1;
+                    }
+                    if out.failed() {
+                        shv.run.fail(None, history_case(&gen, &bms, &pre, start), &out.text(), EXPECTED_H);
+                    }
+                    if pre.len() == 2 && bms.len() == 2 && *with_dang && !out.identity && sampled.fetch_add(1, Ordering::Relaxed) < 2 {
+                        shv.run.sample(history_case(&gen, &bms, &pre, start));
+                    }
+                }
+            }
+        }
+        run.eval(cases);
+        run.nontrivial(nontrivial);
+        run.add("cases_family_H", cases);
+        run.add("history_states", states);
+        run.add("history_cases_where_nothing_moves", still);
+    });
+}
+
 // ---------------------------------------------------------------------------------------------
 
 fn parse_id(v: &Value) -> ObjectId {
@@ -1186,6 +1682,33 @@ fn replay(run: &Run, path: &std::path::Path) -> ! {
         .map(|a| a.iter().map(|b| (parse_id(b), b[2].as_u64().map(|x| x as usize))).collect())
         .unwrap_or_default();
     let start = case["start"].as_u64().map(|s| s as u32);
+    if let Some(pre) = case.get("pre").and_then(|p| p.as_array()) {
+        // family H: bookmarks, the history, then the renumbering under test against the state right before it
+        let pre: Vec<Pre> = pre.iter().map(Pre::from_json).collect();
+        let failed = match state_after(&doc, &bms, &pre) {
+            Err(e) => {
+                println!("observed: {}", e);
+                true
+            }
+            Ok(state) => match snapshot(&state) {
+                Err(e) => {
+                    println!("observed: state after the history: {}", e);
+                    true
+                }
+                Ok(snap) => {
+                    let out = run_final(&snap, state.clone(), start);
+                    if out.failed() {
+                        println!("observed: {}", out.text());
+                        println!("expected: {}", EXPECTED_H);
+                    } else {
+                        println!("observed: all checks hold after the history ({} objects, {} reachable, {} pages, max_id before the call {})", snap.doc.objects.len(), snap.reach.len(), snap.pages.len(), state.max_id);
+                    }
+                    out.failed()
+                }
+            },
+        };
+        run.finish_replay(failed)
+    }
     let prep = match prepare(doc) {
         Ok(p) => p,
         Err(e) => {
@@ -1213,7 +1736,11 @@ fn main() {
     util::init_pool();
     util::pin_schedule();
     if let Mode::Replay(path) = run.mode.clone() {
-        replay(&run, &path);
+        // deeply nested objects are cloned, compared and dropped recursively: give the replay the stack of the pool workers
+        std::thread::scope(|sc| {
+            let _ = std::thread::Builder::new().stack_size(64 << 20).spawn_scoped(sc, || replay(&run, &path));
+        });
+        std::process::exit(3);
     }
     run.rule(
         "cases are tuples (document structure, ids, dangling refs on/off, bookmark list, start value or the plain entry point) enumerated \
@@ -1227,8 +1754,21 @@ fn main() {
          of the second (quick: 4 pages -> 0..2 top-level + the nested pair; 3 pages -> without the last group); family A 0..2 top-level + the \
          nested pair (thorough: n <= 4 or one target as family B; 5 objects with 2-3 pages 0..1 top-level + the nested pair). Distinct by construction (the tags bind \
          roles to numbers); a case is non-trivial when the recovered renaming is not the identity; the plain entry point repeats the input of \
-         start 1 and is not counted as distinct",
+         start 1 and is not counted as distinct. Every family also uses the start value equal to the document's current first number. \
+         Family D (deep nesting): a container nest of depth d in {1,2,63,64,126,127,128,129,130,200,1000} (thorough: 16 more depths up to 2000) x \
+         arrays only / dictionaries only / alternating x placed as /Deep in the trailer, the catalog, the first page, a stream dictionary (thorough: \
+         Info); the innermost container holds a reference to EVERY object and every dangling reference, every level an integer, every 50th level a \
+         reference to the catalog; shapes {2 pages + shared + stream, no pages + shared + stream} (thorough: + 3 pages under an intermediate node) x \
+         numbers dense from 1 / dense from 3 / sparse x pages first / last x every page permutation (no pages: every rotation of the roles) x \
+         generations none / alternating x every start value x dangling refs off/on x 0..1 bookmarks + the nested pair. Family H (history): shapes \
+         {2 pages + Info + shared + orphan + stream, 3 pages (2 under an intermediate node) + shared + orphan, no pages + Info + orphan} x the same \
+         numberings x every history out of: one earlier renumbering with every start value; delete_object of Info / shared / orphan / stream / last \
+         page; delete_pages first / last; add_object; objects.insert far above max_id; objects.remove of the last object; max_id set to 0 / max+100 \
+         / u32::MAX; save_to as table / stream; prune_objects; get_pages; and 10 two- and three-step combinations - then every start value computed \
+         on the resulting state (so 'start = current first number after an earlier renumbering' moves nothing) x dangling refs off/on x bookmark lists",
     );
+    run.assume("family H compares the renumbering under test against the document state right before that call (objects, trailer, bookmark targets), not against the generated document; objects added by the history carry fresh tags");
+    run.assume("deeply nested objects (family D) exist only in memory: lopdf's parser rejects nesting beyond its own limit, the statement is about Document values");
     run.assume("domain: start >= 1, unique object numbers, well-formed page tree, bookmarks target existing objects; every object is a dictionary or stream with a unique integer /Tag (the tag is how the renaming is observed)");
     run.assume("a reference that resolved to nothing may afterwards be any reference to a missing object, or null");
     run.assume("objects not reachable from the trailer are only required to be renumbered (number, generation), not to have their references renamed - the statement speaks of the trailer and what is reachable from it");
@@ -1246,6 +1786,10 @@ fn main() {
     shv.samples_left.store(3, Ordering::SeqCst);
     run.set("wall_family_a_s", json!((run.elapsed() * 10.0).round() / 10.0));
     family_b(&run, &shv);
+    run.set("wall_family_b_s", json!((run.elapsed() * 10.0).round() / 10.0));
+    family_d(&run, &shv);
+    run.set("wall_family_d_s", json!((run.elapsed() * 10.0).round() / 10.0));
+    family_h(&run, &shv);
     run.exhaustive(true);
     run.finish();
 }
